@@ -15,6 +15,8 @@
 From Coq Require Import ZArith List Lia Bool.
 From LZ4V Require Import Gen.Consts Spec.BlockSpec Model.Mem Model.Fast Model.FastApi
      Model.Dec Model.DecApi Proofs.FactorSpec Proofs.FastSound Proofs.FastApiSound Proofs.DecRefineApi Proofs.C01Compose.
+From LZ4V Require Model.HcMid Proofs.HcMidSound.
+From LZ4V Require Import Model.HcMidApi Proofs.HcMidApiSound.
 Import ListNotations.
 Local Open Scope Z_scope.
 
@@ -108,3 +110,43 @@ Example C01_nonvacuous :
   let a := compress_fast_extState src 33 100 1 in
   (a_ret a, a_out a) = (19, [31; 97; 1; 0; 0; 208; 1; 2; 3; 4; 5; 6; 7; 8; 9; 10; 11; 12; 13]).
 Proof. vm_compute. reflexivity. Qed.
+
+(* 6. HC levels 1 and 2 (LZ4MID_compress): LZ4_compress_HC / _extStateHC / _extStateHC_fastReset on ONE
+      LZ4_streamHC_t through ANY history of calls (any inputs, sizes, capacities): every positive result is
+      the size of a block that the specification decodes, strictly, to exactly the input; in limitedOutput
+      mode nothing was written beyond the capacity.  Model: Model.HcMid / Model.HcMidApi (tied to lz4hc.c
+      by the `mid` correspondence: bytes, both hash tables, end index, dirty flag after every call). *)
+Theorem C01_hc_mid_history :
+  forall calls c,
+    hc_ok c ->
+    Forall (fun k => src_ok (mk_src k) /\ 0 <= mk_size k < 2147483648 /\ 0 <= mk_cap k) calls ->
+    Forall (fun ka => let '(k, a) := ka in
+              (mk_cap k < compressBound (mk_size k) -> hr_hw a <= mk_cap k) /\
+              (0 < hr_ret a ->
+                 hr_ret a = Z.of_nat (length (hr_out a)) /\
+                 strict_valid [] (hr_out a) = Some (load_list (mk_src k) 0 (Z.to_nat (mk_size k)))))
+           (run_mid_history c calls).
+Proof. exact mid_history_sound. Qed.
+Print Assumptions C01_hc_mid_history.
+
+Theorem C01_hc_mid_fresh_state : hc_ok hc_init.
+Proof. exact hc_ok_init. Qed.
+Print Assumptions C01_hc_mid_fresh_state.
+
+(* the parser itself, for any tables whose entries are indices below the block (prefix and external
+   dictionary segment in the index space included): a factorisation, whatever the tables contain *)
+Theorem C01_hc_mid_parser :
+  forall vrd lim prefixIdx dictIdx s0 srcSize maxOut h4 h8,
+    (forall a, 0 <= vrd a < 256) ->
+    0 <= dictIdx /\ dictIdx <= prefixIdx /\ prefixIdx <= s0 /\ s0 + srcSize < M32 -> 0 <= srcSize ->
+    HcMidSound.tab_lt h4 s0 -> HcMidSound.tab_lt h8 s0 ->
+    HcMidSound.RSpec vrd lim dictIdx s0 srcSize (HcMid.mid_compress vrd lim prefixIdx dictIdx s0 srcSize maxOut h4 h8).
+Proof. intros; apply HcMidSound.mid_compress_sound; assumption. Qed.
+Print Assumptions C01_hc_mid_parser.
+
+(* Non-vacuity: LZ4_compress_HC(level 2) of 13 x "abcd" + 8 literals, evaluated in the model *)
+Example C01_hc_mid_nonvacuous :
+  let l := concat (repeat [97; 98; 99; 100] 13) ++ [1; 2; 3; 4; 5; 6; 7; 8] in
+  let r := compress_HC_mid (mem_of_list 0 l) 60 100 in
+  0 < hr_ret r < 30 /\ strict_valid [] (hr_out r) = Some l.
+Proof. vm_compute. repeat split; reflexivity. Qed.
